@@ -512,6 +512,11 @@ func isCopyOf(P *Prog, F *ssa.Function, t, v *Term) bool {
 						if !readOnly(u) {
 							return false
 						}
+					case *ssa.ChangeType:
+						// pointer conversion between identically laid out types
+						if !readOnly(u) {
+							return false
+						}
 					case ssa.CallInstruction:
 						callee := staticCallee(u)
 						if callee == nil || !P.inPkg(callee) {
